@@ -3,6 +3,7 @@ mod p_batched;
 mod p_edit;
 mod p_multigen;
 mod p_pipe;
+mod p_tok;
 
 use common::*;
 use serde_json::Value;
@@ -20,6 +21,7 @@ fn component(name: &str) -> (ExecFn, GenFn) {
     match name {
         "edit" => (p_edit::exec, p_edit::gen),
         "pipe" => (p_pipe::exec, p_pipe::gen),
+        "tok" => (p_tok::exec, p_tok::gen),
         "batched" => (p_batched::exec, p_batched::gen),
         "multigen" => (p_multigen::exec, p_multigen::gen),
         "buffered" => (p_pipe::exec_buffered, p_pipe::gen_buffered),
